@@ -106,11 +106,19 @@ def getDBusEndpoints(reactor, busAddress, client=True):
                 ep = UNIXServerEndpoint(reactor, address=path)
 
         elif kind == 'tcp':
+            # an entry without a usable port cannot be dialled: the other
+            # addresses of the list are still to be tried.  Without a host
+            # the local one is meant.
+            try:
+                port = int(d['port'])
+            except (KeyError, ValueError):
+                continue
+            host = d.get('host', 'localhost')
+
             if client:
-                ep = TCP4ClientEndpoint(reactor, d['host'], int(d['port']))
+                ep = TCP4ClientEndpoint(reactor, host, port)
             else:
-                ep = TCP4ServerEndpoint(reactor, int(
-                    d['port']), interface=d['host'])
+                ep = TCP4ServerEndpoint(reactor, port, interface=host)
 
         if ep:
             ep.dbus_args = d
